@@ -362,6 +362,11 @@ impl<T: MessageType> MessageEncoder<T> {
                 BodySize::Stream => {
                     if message.chunked() && !stream {
                         TransferEncoding::chunked()
+                    } else if let (Some(len), false) = (declared_length(message), stream) {
+                        // chunking disabled in favour of a declared Content-Length: that header
+                        // is what delimits the message, so the length is enforced like for a
+                        // sized body
+                        TransferEncoding::length(len)
                     } else {
                         TransferEncoding::eof()
                     }
@@ -375,6 +380,18 @@ impl<T: MessageType> MessageEncoder<T> {
         message.encode_status(dst)?;
         message.encode_headers(dst, version, length, conn_type, config)
     }
+}
+
+/// The `Content-Length` a message declares in its own headers, if it is a single valid number.
+fn declared_length<T: MessageType>(message: &T) -> Option<u64> {
+    let headers = match message.extra_headers() {
+        Some(extra) if extra.contains_key(&CONTENT_LENGTH) => extra,
+        _ => message.headers(),
+    };
+
+    let mut values = headers.get_all(&CONTENT_LENGTH);
+    let len = values.next()?.to_str().ok()?.trim().parse().ok()?;
+    values.next().is_none().then_some(len)
 }
 
 /// Encoders to handle different Transfer-Encodings.
